@@ -14,8 +14,15 @@ def V(name):
     return ("$", name)
 
 
-def unify(pat, val, env):
+def unify(pat, val, env, _top=True):
     """returns new env or None"""
+    if _top:
+        from .trace import canon_slices
+        pat, val = canon_slices(pat), canon_slices(val)
+    return _unify(pat, val, env)
+
+
+def _unify(pat, val, env):
     if pat == ANY:
         return env
     if isinstance(pat, tuple) and len(pat) == 2 and pat[0] == "$":
@@ -27,7 +34,7 @@ def unify(pat, val, env):
         return e2
     if isinstance(pat, tuple) and pat and pat[0] == "anyof":
         for p in pat[1]:
-            r = unify(p, val, env)
+            r = _unify(p, val, env)
             if r is not None:
                 return r
         return None
@@ -36,15 +43,15 @@ def unify(pat, val, env):
             return None
         if pat and pat[0] == "+" and val[0] == "+" and len(pat) == 3:
             for perm in ((val[1], val[2]), (val[2], val[1])):
-                e = unify(pat[1], perm[0], env)
+                e = _unify(pat[1], perm[0], env)
                 if e is not None:
-                    e = unify(pat[2], perm[1], e)
+                    e = _unify(pat[2], perm[1], e)
                     if e is not None:
                         return e
             return None
         e = env
         for p, v in zip(pat, val):
-            e = unify(p, v, e)
+            e = _unify(p, v, e)
             if e is None:
                 return None
         return e
